@@ -49,62 +49,6 @@ namespace Sql
 
 /-! ## the two tree predicates -/
 
-/-- sub-trees `ReindentFilter` never looks into -/
-def rExempt (c : Cls) (ks : List FNode) : Bool :=
-  match c with
-  | .Values => true
-  | .Where => (ks.findIdx? (·.matchKw "WHERE")).isNone
-  | .Parenthesis => (ks.findIdx? (·.matchAnyP Gen.Parenthesis_M_OPEN)).isNone
-  | _ => false
-
-/-- the `WHERE` of a Where group (not one of `split_words`; `_process_where` breaks the line in front of it) -/
-def whereClause (c : Cls) (ks : List FNode) : Bool :=
-  match c with
-  | .Where => wherePaired ks
-  | _ => true
-
-mutual
-/-- output side: every selected clause keyword of every processed list — and the `WHERE` of every Where group — directly follows
-an `nl()` token -/
-def brkOK : FNode → Bool
-  | .tok .. => true
-  | .grp c _ ks => rExempt c ks || (selectedOK rIsSplit nlBefore 0 none ks && whereClause c ks && brkOKL ks)
-def brkOKL : List FNode → Bool
-  | [] => true
-  | k :: r => brkOK k && brkOKL r
-end
-
-/-- the tags of the children in front of which `_process_case` may put a line break: `cond[0]` / `value[0]` of every case but
-the first -/
-def caseTargets (ks : List FNode) : List Nat :=
-  match getCases false (tagAll ks) with
-  | .ok (_ :: rest) => rest.filterMap fun cv => (caseBreakTag cv.1 cv.2).toOption
-  | _ => []
-
-/-- none of those children is a split keyword -/
-def caseTargetsOK (ks : List FNode) : Bool :=
-  (caseTargets ks).all fun t => (tagAll ks).all fun e => !(e.1 == t) || !rIsSplit e.2
-
-/-- the side condition of one group -/
-def liftSide (c : Cls) (ks : List FNode) : Bool :=
-  match c with
-  | .IdentifierList => ks.all fun k => !rIsSplit k
-  | .Parenthesis =>
-    selectedOK rIsSplit noBreakBefore 0 none ks &&
-      (!(ks.any (·.ttInArg Gen.reindentParenTTypes)) || (match ks with | k :: _ => !rIsSplit k | [] => true))
-  | .Case => selectedOK rIsSplit noBreakBefore 0 none ks && caseTargetsOK ks
-  | _ => selectedOK rIsSplit noBreakBefore 0 none ks
-
-mutual
-/-- input side -/
-def liftOK : FNode → Bool
-  | .tok .. => true
-  | .grp c _ ks => rExempt c ks || (liftSide c ks && liftOKL ks)
-def liftOKL : List FNode → Bool
-  | [] => true
-  | k :: r => liftOK k && liftOKL r
-end
-
 theorem brkOKL_iff : ∀ (l : List FNode), brkOKL l = true ↔ ∀ k ∈ l, brkOK k = true
   | [] => by simp [brkOKL]
   | k :: r => by simp [brkOKL, brkOKL_iff r]
